@@ -204,6 +204,66 @@ DER_IDS = [0x00, 0x01, 0x02, 0x03, 0x04, 0x05, 0x06, 0x0c, 0x10, 0x11, 0x16, 0x1
            0x21, 0x23, 0x24, 0x30, 0x31, 0x36, 0x3f, 0x41, 0x80, 0xa0, 0xa3, 0xdf, 0xff]
 
 
+GREQ = [b'tcpip-forward', b'cancel-tcpip-forward', b'streamlocal-forward@openssh.com', b'cancel-streamlocal-forward@openssh.com',
+        b'hostkeys-prove-00@openssh.com', b'keepalive@openssh.com', b'hostkeys-00@openssh.com', b'no-such-request@example.com']
+
+
+def global_requests(server: bool, ri: int, want_reply: bool, nkeys: int, body: bytes) -> bool:
+    """Any byte string as the request-specific data of every global request
+    the role implements (and an unknown one), optionally after 0..1 well-formed
+    entries: handling finishes within a bounded number of packet-field reads
+    and loop steps, nothing escapes to the loop, at most one close, a bounded
+    number of packets in response (exactly one reply when want_reply is set and
+    the connection stays up)."""
+    name = GREQ[ri]
+    loop = MiniLoop()
+    conn, out, loop = _postauth(server, loop)
+    if not server:
+        conn._server_host_keys_handler = lambda added, removed, retained, revoked: None
+        conn._trusted_host_keys = set()
+        conn._revoked_host_keys = set()
+    else:
+        conn._server_host_keys = {}
+    reads = [0]
+    orig = SSHPacket.get_bytes
+
+    def counted(self, size):
+        reads[0] += 1
+        if reads[0] > 200:
+            raise Fuel()
+        return orig(self, size)
+
+    saved = C.asyncio
+    C.asyncio = AsyncioShim(loop)
+    SSHPacket.get_bytes = counted
+    prefix = b''
+    if nkeys:
+        prefix = String(String('ssh-bogus') + String(b'k')) if name.startswith(b'hostkeys') else String('h') + UInt32(1)
+    try:
+        try:
+            deliver(conn, frame(Byte(80) + String(name) + Boolean(want_reply) + prefix + body))
+            loop.run(60)
+        except Fuel:
+            return False
+    finally:
+        C.asyncio = saved
+        SSHPacket.get_bytes = orig
+    if loop.exceptions:
+        return False
+    if reads[0] > 200:
+        return False                 # the work bound was exceeded (also when the Fuel exception was swallowed by a reaper)
+    # a decode error inside the asynchronous part of a handler is reaped into one close of this connection, reported to the owner
+    if len(out.closed) + out.internal > 1:
+        return False
+    if out.closed and not isinstance(out.closed[0], DisconnectError):
+        return False
+    if len(out.sends) > 4:
+        return False
+    if loop.pending():
+        return False                 # a task still runnable after 60 steps: unbounded work
+    return True
+
+
 class HdrBytes:
     """bytes-like view of (concrete header octets) + (symbolic content): the
     operations der_decode_partial uses (len, index, slice, iteration) behave
@@ -512,6 +572,20 @@ OBLIGATIONS = [
        functions=[C.SSHConnection._recv_data, C.SSHConnection._recv_packet] +
                  [v for k, v in sorted(C.SSHConnection._packet_handlers.items())],
        bounds='post-auth state, both roles; every connection-level message type in the handler table plus unknown ones; body = arbitrary bytes of length L in {0,1,4,5} (thorough up to 13)'),
+    Ob('global_requests', global_requests,
+       sym=dict(want_reply=B, nkeys=R(0, 1)),
+       shards=dict(server=[True, False], ri=list(range(len(GREQ))), L=[0, 1, 4, 5]),
+       thorough_shards=dict(server=[True, False], ri=list(range(len(GREQ))), L=[0, 1, 3, 4, 5, 8, 9]),
+       timeout=150, thorough_timeout=600,
+       functions=[C.SSHConnection._process_global_request, C.SSHConnection._service_next_global_request,
+                  C.SSHClientConnection._finish_hostkeys, C.SSHServerConnection._process_tcpip_forward_global_request,
+                  C.SSHServerConnection._process_cancel_tcpip_forward_global_request,
+                  C.SSHServerConnection._process_streamlocal_forward_at_openssh_dot_com_global_request,
+                  C.SSHServerConnection._process_cancel_streamlocal_forward_at_openssh_dot_com_global_request,
+                  C.SSHServerConnection._process_hostkeys_prove_00_at_openssh_dot_com_global_request,
+                  C.SSHConnection._process_keepalive_at_openssh_dot_com_global_request],
+       bounds='both roles x 7 implemented global request names + 1 unknown x want_reply x 0..1 well-formed leading entry x request data = arbitrary bytes of length L in {0,1,4,5} (thorough up to 9); '
+              'work bound: 200 packet-field reads, 60 loop steps, 4 packets written'),
     Ob('chan_payload', chan_payload,
        sym=dict(ti=R(0, 2)),
        shards=dict(server=[True, False], grp=[0, 1, 2, 3], L=[0, 4]),
@@ -567,8 +641,8 @@ OBLIGATIONS = [
 
 # symbolic byte-string parameters whose length is the shard value L
 for _o in OBLIGATIONS:
-    if _o.name in ('conn_payload', 'chan_payload', 'packet_getters', 'der_bytes', 'sftp_attrs_bytes'):
-        _o.bytes_param = 'body' if 'payload' in _o.name else 'content' if _o.name == 'der_bytes' else 'tail' if _o.name == 'sftp_attrs_bytes' else 'data'
+    if _o.name in ('conn_payload', 'chan_payload', 'global_requests', 'packet_getters', 'der_bytes', 'sftp_attrs_bytes'):
+        _o.bytes_param = 'body' if ('payload' in _o.name or _o.name == 'global_requests') else 'content' if _o.name == 'der_bytes' else 'tail' if _o.name == 'sftp_attrs_bytes' else 'data'
 
 MANIFEST = dict(
     engines='A',
